@@ -196,6 +196,33 @@ func (e *c43Env) addBlock(plan []c43PlannedTx) (uint32, []byte, error) {
 	return h, states, nil
 }
 
+// abandon offers the ledger a valid block built from plan together with a WRONG state root, the way a
+// syncing node may receive one: the block is executed and refused (before anything is staged).
+// Nothing of it may survive; the caller restores the senders' nonces and commits another block at the
+// same height. (An abort AFTER staging — e.g. a panic injected at the pre-block-commit hook — is not
+// generated: the unchanged ledger cannot continue after it, its eagerly appended merkle trees make the
+// next reopen fail with "merkle tree size is inconsistent with blockheight"; see DESIGN §11.)
+func (e *c43Env) abandon(plan []c43PlannedTx) error {
+	var txs []*types.Transaction
+	for _, p := range plan {
+		txs = append(txs, p.tx)
+	}
+	b, err := e.ch.MakeBlock(txs, 0)
+	if err != nil {
+		return err
+	}
+	res, err := e.ch.LS.ExecuteBlock(b)
+	if err != nil {
+		return fmt.Errorf("harness: alternative block does not execute: %v", err)
+	}
+	wrong := res.MerkleRoot
+	wrong[7] ^= 0x40
+	if err := e.ch.LS.AddBlock(b, nil, wrong); err == nil {
+		return fmt.Errorf("AddBlock accepted block %d with a state root that differs from the executed one", b.Header.Height)
+	}
+	return nil
+}
+
 // c43BlockLogs returns every EVM log of block h: from the event store, plus harness-known ones.
 func (e *c43Env) blockLogs(h uint32) ([]c43Log, int, error) {
 	var out []c43Log
@@ -470,6 +497,7 @@ func c43SectionChain(t *rapid.T, ev *harn.Collector, total uint32, restarts []ui
 			break
 		}
 		pos := h % S
+		nonceBefore := append([]uint64{}, env.nonce...)
 		forced := h == 2 || pos >= S-2 || pos <= 2
 		var ptx []c43PlannedTx
 		if forced || rapid.IntRange(0, 59).Draw(t, "hastx") == 0 {
@@ -487,6 +515,31 @@ func c43SectionChain(t *rapid.T, ev *harn.Collector, total uint32, restarts []ui
 			}
 			if forced && hasEvm {
 				ev.Class("section:edge-block-with-evm-tx")
+			}
+		}
+		// now and then, and always at the last block of a section, a DIFFERENT valid block is offered
+		// first with a wrong state root and refused; the block committed afterwards
+		// at the same height must be indexed as if that had never happened
+		if h >= 3 && (pos == S-1 || pos == S-3 || rapid.IntRange(0, 149).Draw(t, "abandon") == 0) {
+			saved := append([]uint64{}, env.nonce...)
+			copy(env.nonce, nonceBefore) // the alternative spends the same nonces as the real block would
+			var alt []c43PlannedTx
+			hasEvm := false
+			for j := 0; j < 2 || (!hasEvm && j < 10); j++ {
+				p, err := env.genTx(t)
+				if err != nil {
+					t.Fatal(err)
+				}
+				hasEvm = hasEvm || p.isEvm
+				alt = append(alt, p)
+			}
+			if err := env.abandon(alt); err != nil {
+				t.Fatalf("block %d, refused alternative first: %v", h, err)
+			}
+			copy(env.nonce, saved)
+			ev.Class("section:abandoned-submit")
+			if pos == S-1 {
+				ev.Class("section:abandoned-submit-at-last-block")
 			}
 		}
 		hh, _, err := env.addBlock(ptx)
@@ -537,7 +590,7 @@ func c43VerifySections(t *rapid.T, ev *harn.Collector, env *c43Env, stage string
 
 func TestC43_SectionIndex(t *testing.T) {
 	ev := harn.For("C43")
-	ev.Rule("section index: one long chain per case. Quick: 4096+3..60 blocks (one completed section) with a restart at a generated height inside section 0. Thorough: 8192+3..200 blocks (two completed sections), restarts inside section 0 (sometimes) and inside section 1 (always). EVM-log blocks are forced at the two blocks before and three after every section boundary and at height 2, and drawn with p~1/60 elsewhere. After the last block and again after a final restart: for every completed section and each of the 2048 bits, decompressed ReadBloomBits(bit, section) equals the vector recomputed from GetBloomData of the section's 4096 blocks; every log value of the section hits its 3 bit vectors at the block's position; per-block oracle for every block with txs. Non-trivial = always (>= 1 completed section holding EVM logs at both edges); distinct by lengths, restart heights and tip hash")
+	ev.Rule("section index: one long chain per case. Quick: 4096+3..60 blocks (one completed section) with a restart at a generated height inside section 0. Thorough: 8192+3..200 blocks (two completed sections), restarts inside section 0 (sometimes) and inside section 1 (always). EVM-log blocks are forced at the two blocks before and three after every section boundary and at height 2, and drawn with p~1/60 elsewhere; at the last and third-last block of every section, and with p~1/150 elsewhere, a different valid block with EVM logs is first offered with a wrong state root (executed, then refused) before the real block of that height is committed. After the last block and again after a final restart: for every completed section and each of the 2048 bits, decompressed ReadBloomBits(bit, section) equals the vector recomputed from GetBloomData of the section's 4096 blocks; every log value of the section hits its 3 bit vectors at the block's position; per-block oracle for every block with txs. Non-trivial = always (>= 1 completed section holding EVM logs at both edges); distinct by lengths, restart heights and tip hash")
 	harn.Check(t, 1, 8, func(t *rapid.T) {
 		const S = ledgerstore.BloomBitsBlocks
 		var total uint32
